@@ -211,6 +211,8 @@ def classifier_clause(model, rep, funcs):
         for flag in (True, False):
             out = Interp(model, _TD(), depth=1).run(h, args={"mask": _C(flag)}, self_val=SELF)
             want_x = [_T("op", ("Mult", img, msk)), _T("op", ("Mult", msk, img))] if flag else [img]
+            if isinstance(out, _T) and _cn(out) == "reshape" and len(out.args[1]) == 1 and isinstance(out.args[1][0], _T) and out.args[1][0].op == "tuple":
+                out = _T("call", (out.args[0], tuple(out.args[1][0].args), out.args[2]))  # x.reshape((n, -1)) is x.reshape(n, -1)
             good = isinstance(out, _T) and _cn(out) == "reshape" and out.args[0].op == "attr" and out.args[0].args[0] in want_x and len(out.args[1]) == 2 and \
                 out.args[1][1] in (_T("const", ("-1",)), _T("un", ("USub", _T("const", ("1",))))) and \
                 out.args[1][0] in (nimg, _T("sub", (_T("attr", (out.args[0].args[0], "shape")), "0")), _T("sub", (_T("attr", (img, "shape")), "0")))
